@@ -16,6 +16,7 @@ type vCatTable struct {
 	provisioned bool
 	hasRange    bool
 	indexes     map[string]bool
+	lsis        bool     // two local secondary indexes declared at creation: l1 (p, g) and l2 (p, h)
 	keys        []string // hash keys of the stored items (range fixed to "r" when the table has one)
 	unfit       int      // stored items whose g is a number: they belong to the table and to no index on g
 }
@@ -23,6 +24,10 @@ type vCatTable struct {
 type vCat map[string]*vCatTable
 
 func vCreate(c *Client, name string, withRange, withGSI bool, billing int) error {
+	return vCreateL(c, name, withRange, withGSI, false, billing)
+}
+
+func vCreateL(c *Client, name string, withRange, withGSI, withLSIs bool, billing int) error {
 	in := generateAddTableInput(name, "p", map[bool]string{true: "s", false: ""}[withRange])
 	switch billing {
 	case 1: // provisioned, throughput given
@@ -37,6 +42,17 @@ func vCreate(c *Client, name string, withRange, withGSI bool, billing int) error
 			KeySchema:             []types.KeySchemaElement{{AttributeName: aws.String("g"), KeyType: types.KeyTypeHash}},
 			Projection:            &types.Projection{ProjectionType: types.ProjectionTypeAll},
 			ProvisionedThroughput: in.ProvisionedThroughput}}
+	}
+	if withLSIs {
+		if !withGSI {
+			in.AttributeDefinitions = append(in.AttributeDefinitions, types.AttributeDefinition{AttributeName: aws.String("g"), AttributeType: types.ScalarAttributeTypeS})
+		}
+		in.AttributeDefinitions = append(in.AttributeDefinitions, types.AttributeDefinition{AttributeName: aws.String("h"), AttributeType: types.ScalarAttributeTypeS})
+		for _, l := range [][2]string{{"l1", "g"}, {"l2", "h"}} {
+			in.LocalSecondaryIndexes = append(in.LocalSecondaryIndexes, types.LocalSecondaryIndex{IndexName: aws.String(l[0]),
+				KeySchema:  []types.KeySchemaElement{{AttributeName: aws.String("p"), KeyType: types.KeyTypeHash}, {AttributeName: aws.String(l[1]), KeyType: types.KeyTypeRange}},
+				Projection: &types.Projection{ProjectionType: types.ProjectionTypeAll}})
+		}
 	}
 	_, err := c.CreateTable(vCtx, in)
 	return err
@@ -85,6 +101,30 @@ func vCheckTable(c *Client, cat vCat, name, id string) {
 	for _, g := range d.Table.GlobalSecondaryIndexes {
 		nd.Assert(m.indexes[aws.ToString(g.IndexName)], id+"-describe-index-names")
 		nd.Assert(int(aws.ToInt64(g.ItemCount)) == len(m.keys), id+"-describe-index-item-count") // every item carries g
+		// the index as declared: its key schema and its projection
+		nd.Assert(len(g.KeySchema) == 1 && aws.ToString(g.KeySchema[0].AttributeName) == "g" && g.KeySchema[0].KeyType == types.KeyTypeHash, id+"-describe-index-key-schema")
+		nd.Assert(g.Projection != nil && g.Projection.ProjectionType == types.ProjectionTypeAll, id+"-describe-index-projection")
+	}
+	wantL := 0
+	if m.lsis {
+		wantL = 2
+	}
+	nd.Assert(len(d.Table.LocalSecondaryIndexes) == wantL, id+"-describe-local-index-set")
+	for _, l := range d.Table.LocalSecondaryIndexes {
+		n := aws.ToString(l.IndexName)
+		nd.Assert(n == "l1" || n == "l2", id+"-describe-local-index-names")
+		wantAttr, wantCount := "g", len(m.keys)
+		if n == "l2" {
+			wantAttr, wantCount = "h", 0 // no item carries h
+		}
+		nd.Assert(len(l.KeySchema) == 2 && aws.ToString(l.KeySchema[0].AttributeName) == "p" && aws.ToString(l.KeySchema[1].AttributeName) == wantAttr, id+"-describe-local-index-key-schema")
+		nd.Assert(l.Projection != nil && l.Projection.ProjectionType == types.ProjectionTypeAll, id+"-describe-local-index-projection")
+		nd.Assert(int(aws.ToInt64(l.ItemCount)) == wantCount, id+"-describe-local-index-item-count")
+		sl, lerr := c.Scan(vCtx, &dynamodb.ScanInput{TableName: aws.String(name), IndexName: aws.String(n)})
+		nd.Assert(lerr == nil && len(sl.Items) == wantCount, id+"-local-index-scan-size")
+	}
+	if wantL == 2 {
+		nd.Assert(aws.ToString(d.Table.LocalSecondaryIndexes[0].IndexName) != aws.ToString(d.Table.LocalSecondaryIndexes[1].IndexName), id+"-describe-lists-every-local-index-once")
 	}
 	s, err := c.Scan(vCtx, &dynamodb.ScanInput{TableName: aws.String(name)})
 	nd.Assert(err == nil && len(s.Items) == len(m.keys)+m.unfit, id+"-scan-size")
@@ -157,7 +197,9 @@ func VerifC18Lifecycle() {
 		switch nd.Choice("op", 7) {
 		case 0:
 			withRange, withGSI, billing := nd.Choice("range", 2) == 1, nd.Choice("gsi", 2) == 1, nd.Choice("billing", 3)
-			err := vCreate(c, name, withRange, withGSI, billing)
+			// with a sort key the table may declare two local secondary indexes (so: more local than global ones)
+			withLSIs := withRange && nd.Param("lsis", 1) == 1 && nd.Choice("lsis", 2) == 1
+			err := vCreateL(c, name, withRange, withGSI, withLSIs, billing)
 			switch {
 			case exists:
 				nd.Reach("create-existing")
@@ -167,7 +209,10 @@ func VerifC18Lifecycle() {
 			default:
 				nd.Reach("create")
 				nd.Assert(err == nil, "C18-create-noerr")
-				cat[name] = &vCatTable{hasRange: withRange, provisioned: billing == 1, indexes: map[string]bool{}}
+				cat[name] = &vCatTable{hasRange: withRange, provisioned: billing == 1, indexes: map[string]bool{}, lsis: withLSIs}
+				if withLSIs {
+					nd.Reach("create-with-local-indexes")
+				}
 				if withGSI {
 					cat[name].indexes["gsi"] = true
 				}
